@@ -71,10 +71,14 @@ Lemma render_Comprehension t it conds a :
 Proof. destruct a, conds; rnorm; cbn [is_nil]; rnorm; rewrite ?sapp_assoc; reflexivity. Qed.
 Lemma render_Dict items :
   render (GDict items) =
-  "{" ++ sjoin ", " (map (fun kv => (match fst kv with None => "None" | Some k => render k end) ++ ": " ++ render (snd kv)) items) ++ "}".
+  "{" ++ sjoin ", " (map (fun kv => (match fst kv with None => "**" | Some k => render k ++ ": " end) ++ render (snd kv)) items) ++ "}".
 Proof.
-  rnorm. rewrite map_map. f_equal. f_equal. f_equal. apply map_ext. intros [[k|] v]; unfold dict_item; simpl fst; simpl snd; rnorm; reflexivity.
+  rnorm. rewrite map_map. f_equal. f_equal. f_equal. apply map_ext. intros [[k|] v]; unfold dict_item; simpl fst; simpl snd; rnorm;
+    rewrite ?sapp_assoc; reflexivity.
 Qed.
+Lemma render_DictComp k v gens :
+  render (GDictComp k v gens) = "{" ++ render k ++ ": " ++ render v ++ " " ++ sjoin " " (map render gens) ++ "}".
+Proof. rnorm. rewrite ?sapp_assoc. reflexivity. Qed.
 Lemma render_Lambda params body :
   render (GLambda params body) =
   "lambda" ++ (if is_nil params then "" else " ")
@@ -239,7 +243,7 @@ Definition gnonempty (g : gexpr) : Prop := match g with GAttribute [] => False |
 
 Definition RenderP (e : pyexpr) : Prop :=
   forall direct isub ijoin ifmt,
-    (direct = true -> isub = true) -> wfk KExpr e = true -> gaps direct isub ijoin ifmt e = [] ->
+    isub = direct -> wfk KExpr e = true -> gaps direct isub ijoin ifmt e = [] ->
     exists g, build (mkCtx NoParse isub ijoin ifmt) e = Some g /\ gnonempty g /\ render g = rprint direct e.
 
 Definition RenderP' (e : pyexpr) : Prop := RenderP e /\ kidsP RenderP e.
@@ -254,13 +258,13 @@ Ltac split_nil :=
 Lemma need_nil req c : need req c = [] -> (prec c <? req) = false.
 Proof. unfold need. destruct (prec c <? req); [discriminate|reflexivity]. Qed.
 
-Lemma child_at c req isub ijoin ifmt :
-  RenderP c -> wfk KExpr c = true -> need req c = [] -> gaps false isub ijoin ifmt c = [] ->
-  exists g, build (mkCtx NoParse isub ijoin ifmt) c = Some g /\ gnonempty g
+Lemma child_at c req ijoin ifmt :
+  RenderP c -> wfk KExpr c = true -> need req c = [] -> gaps false false ijoin ifmt c = [] ->
+  exists g, build (mkCtx NoParse false ijoin ifmt) c = Some g /\ gnonempty g
             /\ render g = paren_if (prec c <? req) (rprint false c).
 Proof.
   intros H Hw Hn Hg. rewrite (need_nil _ _ Hn). cbn [paren_if].
-  apply H; try assumption. discriminate.
+  apply H; try assumption. reflexivity.
 Qed.
 
 Lemma mapo_render {B} (bld : pyexpr -> option B) (txt : B -> string) (G : pyexpr -> list nat) (R : pyexpr -> string) vs :
@@ -273,32 +277,32 @@ Proof.
   exists (g :: gs). simpl. rewrite Bg, Bgs, Tg, Tgs. split; reflexivity.
 Qed.
 
-Lemma children_at vs req isub ijoin ifmt :
+Lemma children_at vs req ijoin ifmt :
   Forall RenderP' vs -> forallb (wfk KExpr) vs = true ->
-  flat_map (fun c => need req c ++ gaps false isub ijoin ifmt c) vs = [] ->
-  exists gs, mapo (build (mkCtx NoParse isub ijoin ifmt)) vs = Some gs /\
+  flat_map (fun c => need req c ++ gaps false false ijoin ifmt c) vs = [] ->
+  exists gs, mapo (build (mkCtx NoParse false ijoin ifmt)) vs = Some gs /\
              map render gs = map (fun c => paren_if (prec c <? req) (rprint false c)) vs.
 Proof.
   intros H Hw. apply mapo_render. apply forallb_Forall in Hw.
   eapply Forall_impl2; [|exact H|exact Hw]. intros c [Hc _] Hwc Hg. simpl in Hwc.
   apply app_eq_nil in Hg. destruct Hg as [Hn Hg].
-  destruct (child_at c req isub ijoin ifmt Hc Hwc Hn Hg) as [g [Bg [_ Rg]]]. exists g. split; assumption.
+  destruct (child_at c req ijoin ifmt Hc Hwc Hn Hg) as [g [Bg [_ Rg]]]. exists g. split; assumption.
 Qed.
 
-Lemma children_plain vs isub ijoin ifmt :
+Lemma children_plain vs ijoin ifmt :
   Forall RenderP' vs -> forallb (wfk KExpr) vs = true ->
-  flat_map (gaps false isub ijoin ifmt) vs = [] ->
-  exists gs, mapo (build (mkCtx NoParse isub ijoin ifmt)) vs = Some gs /\ map render gs = map (rprint false) vs.
+  flat_map (gaps false false ijoin ifmt) vs = [] ->
+  exists gs, mapo (build (mkCtx NoParse false ijoin ifmt)) vs = Some gs /\ map render gs = map (rprint false) vs.
 Proof.
   intros H Hw. apply mapo_render. apply forallb_Forall in Hw.
   eapply Forall_impl2; [|exact H|exact Hw]. intros c [Hc _] Hwc Hg. simpl in Hwc.
-  destruct (Hc false isub ijoin ifmt ltac:(discriminate) Hwc Hg) as [g [Bg [_ Rg]]]. exists g. split; assumption.
+  destruct (Hc false false ijoin ifmt eq_refl Hwc Hg) as [g [Bg [_ Rg]]]. exists g. split; assumption.
 Qed.
 
-Lemma child_opt o req isub ijoin ifmt :
+Lemma child_opt o req ijoin ifmt :
   OptP RenderP' o -> (match o with Some c => wfk KExpr c | None => true end) = true ->
-  (match o with Some c => need req c ++ gaps false isub ijoin ifmt c | None => [] end) = [] ->
-  exists go, optb (build (mkCtx NoParse isub ijoin ifmt)) o = Some go /\
+  (match o with Some c => need req c ++ gaps false false ijoin ifmt c | None => [] end) = [] ->
+  exists go, optb (build (mkCtx NoParse false ijoin ifmt)) o = Some go /\
              match o, go with
              | Some c, Some g => render g = paren_if (prec c <? req) (rprint false c)
              | None, None => True
@@ -307,12 +311,9 @@ Lemma child_opt o req isub ijoin ifmt :
 Proof.
   destruct o as [c|]; simpl; intros H Hw Hg; [|exists None; split; [reflexivity|exact I]].
   apply app_eq_nil in Hg. destruct Hg as [Hn Hg]. destruct H as [H _].
-  destruct (child_at c req isub ijoin ifmt H Hw Hn Hg) as [g [Bg [_ Rg]]].
+  destruct (child_at c req ijoin ifmt H Hw Hn Hg) as [g [Bg [_ Rg]]].
   exists (Some g). rewrite Bg. split; [reflexivity|exact Rg].
 Qed.
-
-Lemma fix_inf_id r : is_inf r = false -> fix_inf r = r.
-Proof. unfold is_inf, fix_inf. intros H. apply orb_false_iff in H. destruct H as [H1 H2]. rewrite H1, H2. reflexivity. Qed.
 
 Lemma esc_braces_id s : has_brace s = false -> esc_braces s = s.
 Proof.
@@ -365,21 +366,24 @@ Definition build_item (c : bctx) (it : pyexpr) : option (option gexpr * gexpr) :
   | _ => None
   end.
 Definition dtxt (kv : option gexpr * gexpr) : string :=
-  ((match fst kv with None => "None" | Some k => render k end) ++ ": " ++ render (snd kv))%string.
+  ((match fst kv with None => "**" | Some k => render k ++ ": " end) ++ render (snd kv))%string.
 
-Lemma dict_items_at items isub ijoin ifmt :
-  Forall RenderP' items -> forallb (wfk KItem) items = true -> flat_map (gaps false isub ijoin ifmt) items = [] ->
-  exists its, mapo (build_item (mkCtx NoParse isub ijoin ifmt)) items = Some its /\ map dtxt its = map (rprint false) items.
+Lemma dict_items_at items ijoin ifmt :
+  Forall RenderP' items -> forallb (wfk KItem) items = true -> flat_map (gaps false false ijoin ifmt) items = [] ->
+  exists its, mapo (build_item (mkCtx NoParse false ijoin ifmt)) items = Some its /\ map dtxt its = map (rprint false) items.
 Proof.
   intros H Hw. apply mapo_render. apply forallb_Forall in Hw.
   eapply Forall_impl2; [|exact H|exact Hw]. intros c [_ Hk] Hwc Hg.
-  destruct c; try (cbn in Hwc; discriminate Hwc).
+  destruct c as [| | | | | | | | | | | | | | | | | |k v| | | | | | | | | | | | | | |]; try (cbn in Hwc; discriminate Hwc).
   cbn in Hwc. split_andb. destruct Hk as [Hk Hv]. cbn [gaps] in Hg.
-  destruct k as [key|]; [|discriminate Hg]. split_nil. simpl in Hk.
-  destruct (child_at key _ _ _ _ Hk ltac:(assumption) ltac:(eassumption) ltac:(eassumption)) as [gk [Bk [_ Rk]]].
-  destruct (child_at c _ _ _ _ Hv ltac:(assumption) ltac:(eassumption) ltac:(eassumption)) as [gv [Bv [_ Rv]]].
-  exists (Some gk, gv). cbn [build_item]. rewrite Bk, Bv. split; [reflexivity|].
-  unfold dtxt. cbn [fst snd rprint]. rewrite Rk, Rv. reflexivity.
+  destruct k as [key|]; split_nil; simpl in Hk.
+  - destruct (child_at key _ _ _ Hk ltac:(assumption) ltac:(eassumption) ltac:(eassumption)) as [gk [Bk [_ Rk]]].
+    destruct (child_at v _ _ _ Hv ltac:(assumption) ltac:(eassumption) ltac:(eassumption)) as [gv [Bv [_ Rv]]].
+    exists (Some gk, gv). cbn [build_item]. rewrite Bk, Bv. split; [reflexivity|].
+    unfold dtxt. cbn [fst snd rprint]. rewrite Rk, Rv, sapp_assoc. reflexivity.
+  - destruct (child_at v _ _ _ Hv ltac:(assumption) ltac:(eassumption) ltac:(eassumption)) as [gv [Bv [_ Rv]]].
+    exists (None, gv). cbn [build_item]. rewrite Bv. split; [reflexivity|].
+    unfold dtxt. cbn [fst snd rprint]. rewrite Rv. reflexivity.
 Qed.
 
 Definition par_of (k : pkind) (p : pyexpr) : option gpar :=
@@ -396,9 +400,9 @@ Proof.
     constructor; [reflexivity|apply IH; reflexivity].
 Qed.
 
-Lemma params_at k ps isub ijoin ifmt :
+Lemma params_at k ps ijoin ifmt :
   is_variadic k = false ->
-  Forall RenderP' ps -> forallb (wfk KParam) ps = true -> flat_map (gaps false isub ijoin ifmt) ps = [] ->
+  Forall RenderP' ps -> forallb (wfk KParam) ps = true -> flat_map (gaps false false ijoin ifmt) ps = [] ->
   exists gs, mapo (par_of k) ps = Some gs /\ map gptxt gs = map (rprint false) ps.
 Proof.
   intros Hk H Hw. apply mapo_render. apply forallb_Forall in Hw.
@@ -406,7 +410,7 @@ Proof.
   destruct c as [| | | | | | | | | | | | | | | | | | | | |pn d| | | | | | | | | | | |]; try (cbn in Hwc; discriminate Hwc).
   cbn in Hwc. cbn [gaps] in Hg. simpl in Hd. destruct d as [dd|].
   - split_nil. simpl in Hd.
-    destruct (child_at dd _ _ _ _ Hd ltac:(assumption) ltac:(eassumption) ltac:(eassumption)) as [gd [Bd [_ Rd]]].
+    destruct (child_at dd _ _ _ Hd ltac:(assumption) ltac:(eassumption) ltac:(eassumption)) as [gd [Bd [_ Rd]]].
     eexists. cbn [par_of]. unfold ctx0. rewrite Bd. split; [reflexivity|].
     unfold gptxt, pkindof. cbn [fst snd rprint]. rewrite Hk, Rd. reflexivity.
   - eexists. cbn [par_of]. split; [reflexivity|]. reflexivity.
@@ -422,9 +426,9 @@ Ltac rstart :=
   split; [|try exact I]; intros direct isub ijoin ifmt Hd Hwf Hg; cbn in Hwf; split_andb; cbn [gaps] in Hg; split_nil.
 
 Ltac kid c IH g B R :=
-  destruct (child_at c _ _ _ _ IH ltac:(assumption) ltac:(eassumption) ltac:(eassumption)) as [g [B [_ R]]].
+  destruct (child_at c _ _ _ IH ltac:(assumption) ltac:(eassumption) ltac:(eassumption)) as [g [B [_ R]]].
 
-Ltac bsimpl := cbn [build mapped node_builder pm insub injoin infmt].
+Ltac bsimpl := cbn [build enter keeps_insub mapped node_builder pm insub injoin infmt].
 Ltac done_with g := exists g; split; [reflexivity|split; [exact I|]].
 
 Theorem render_all : forall e, RenderP' e.
@@ -432,25 +436,25 @@ Proof.
   apply pyexpr_ind'.
   - (* PName *) intros id. rstart. bsimpl. eexists; split; [reflexivity|split; [exact I|]]. apply render_Name.
   - (* PNum *) intros isint r. rstart. bsimpl. eexists; split; [reflexivity|split; [exact I|]].
-    rewrite render_Str. cbn [rprint]. symmetry. apply fix_inf_id. assumption.
+    rewrite render_Str. reflexivity.
   - (* PConst *) intros r. rstart. bsimpl. eexists; split; [reflexivity|split; [exact I|]]. apply render_Str.
   - (* PStr *) intros r raw parsed _. rstart. bsimpl. rewrite Heqb. eexists; split; [reflexivity|split; [exact I|]]. apply render_Str.
   - (* PParsed *) intros p [IH _]. rstart. bsimpl. cbn [rprint]. apply IH; assumption.
   - (* PAttribute *) intros v a [IH _]. rstart. 
-    destruct (child_at v _ _ _ _ IH ltac:(assumption) ltac:(eassumption) ltac:(eassumption)) as [g [B [Hne R]]].
+    destruct (child_at v _ _ _ IH ltac:(assumption) ltac:(eassumption) ltac:(eassumption)) as [g [B [Hne R]]].
     bsimpl. rewrite B. destruct (render_attach g a Hne) as [Ra Hna].
     eexists; split; [reflexivity|split; [exact Hna|]]. rewrite Ra, R. cbn [rprint]. rewrite Heqb. reflexivity.
   - (* PBinOp *) intros l o r [IHl _] [IHr _]. rstart. kid l IHl gl Bl Rl. kid r IHr gr Br Rr.
     bsimpl. rewrite Bl, Br, binop_table. eexists; split; [reflexivity|split; [exact I|]].
     rewrite render_BinOp, Rl, Rr. reflexivity.
   - (* PBoolOp *) intros o vs IH. rstart.
-    destruct (children_at vs _ _ _ _ IH ltac:(assumption) Hg) as [gs [Bs Rs]].
+    destruct (children_at vs _ _ _ IH ltac:(assumption) Hg) as [gs [Bs Rs]].
     bsimpl. rewrite Bs, boolop_table. eexists; split; [reflexivity|split; [exact I|]].
     rewrite render_BoolOp, Rs. reflexivity.
   - (* PUnaryOp *) intros o v [IH _]. rstart. kid v IH g B R.
     bsimpl. rewrite B, unop_table. eexists; split; [reflexivity|split; [exact I|]]. rewrite render_UnaryOp, R. reflexivity.
   - (* PCompare *) intros l ops cs [IHl _] IH. rstart. kid l IHl gl Bl Rl.
-    destruct (children_at cs _ _ _ _ IH ltac:(assumption) ltac:(eassumption)) as [gs [Bs Rs]].
+    destruct (children_at cs _ _ _ IH ltac:(assumption) ltac:(eassumption)) as [gs [Bs Rs]].
     bsimpl. rewrite Bl, Bs, cmpops_table. eexists; split; [reflexivity|split; [exact I|]].
     match goal with H : (List.length ops =? List.length cs) = true |- _ => apply Nat.eqb_eq in H; rename H into Hlen end.
     rewrite render_Compare by (rewrite map_length, (mapo_length _ _ _ Bs); exact Hlen).
@@ -458,8 +462,8 @@ Proof.
     + match goal with H : negb (is_nil ops) = true |- _ => destruct ops; [discriminate H|reflexivity] end.
     + rewrite map_length. exact Hlen.
   - (* PCall *) intros fn args kws [IHf _] IHa IHk. rstart. kid fn IHf gf Bf Rf.
-    destruct (children_at args _ _ _ _ IHa ltac:(assumption) ltac:(eassumption)) as [ga [Ba Ra]].
-    destruct (children_plain kws _ _ _ IHk ltac:(assumption) ltac:(eassumption)) as [gk [Bk Rk]].
+    destruct (children_at args _ _ _ IHa ltac:(assumption) ltac:(eassumption)) as [ga [Ba Ra]].
+    destruct (children_plain kws _ _ IHk ltac:(assumption) ltac:(eassumption)) as [gk [Bk Rk]].
     bsimpl. rewrite Bf, Ba, Bk. eexists; split; [reflexivity|split; [exact I|]].
     rewrite render_Call, Rf, map_app, Ra, Rk. reflexivity.
   - (* PKeyword *) intros n v [IH _]. rstart. kid v IH g B R.
@@ -467,47 +471,47 @@ Proof.
     + rewrite render_Keyword, R. reflexivity.
     + rewrite render_VarKeyword, R. reflexivity.
   - (* PSubscript *) intros v lit sl [IHv _] [IHs _]. rstart. kid v IHv gv Bv Rv.
-    destruct (IHs true true ijoin ifmt ltac:(reflexivity) ltac:(assumption) ltac:(assumption)) as [gs [Bs [_ Rs]]].
+    destruct (IHs true true ijoin ifmt eq_refl ltac:(assumption) ltac:(assumption)) as [gs [Bs [_ Rs]]].
     bsimpl. rewrite Bv, Bs. eexists; split; [reflexivity|split; [exact I|]].
     rewrite render_Subscript, Rv, Rs. cbn [rprint].
     match goal with H : need P_TEST sl = [] |- _ => rewrite (need_nil _ _ H) end. reflexivity.
   - (* PSlice *) intros lo up st IHl IHu IHs. rstart.
-    destruct (child_opt lo _ _ _ _ IHl ltac:(assumption) ltac:(eassumption)) as [glo [Blo Rlo]].
-    destruct (child_opt up _ _ _ _ IHu ltac:(assumption) ltac:(eassumption)) as [gup [Bup Rup]].
-    destruct (child_opt st _ _ _ _ IHs ltac:(assumption) ltac:(eassumption)) as [gst [Bst Rst]].
+    destruct (child_opt lo _ _ _ IHl ltac:(assumption) ltac:(eassumption)) as [glo [Blo Rlo]].
+    destruct (child_opt up _ _ _ IHu ltac:(assumption) ltac:(eassumption)) as [gup [Bup Rup]].
+    destruct (child_opt st _ _ _ IHs ltac:(assumption) ltac:(eassumption)) as [gst [Bst Rst]].
     bsimpl. rewrite Blo, Bup, Bst. eexists; split; [reflexivity|split; [exact I|]].
     rewrite render_Slice. cbn [rprint].
     destruct lo, glo; try contradiction; destruct up, gup; try contradiction; destruct st, gst; try contradiction;
       cbn [optstr]; rewrite ?Rlo, ?Rup, ?Rst; reflexivity.
   - (* PTuple *) intros es IH. rstart.
-    destruct (children_at es _ _ _ _ IH ltac:(assumption) ltac:(eassumption)) as [gs [Bs Rs]].
+    destruct (children_at es _ _ _ IH ltac:(assumption) ltac:(eassumption)) as [gs [Bs Rs]].
     bsimpl. rewrite Bs. eexists; split; [reflexivity|split; [exact I|]].
     rewrite render_Tuple. cbn [rprint]. cbv zeta. rewrite Rs.
     assert (Hone : (match gs with [_] => "," | _ => "" end)%string = (match es with [_] => "," | _ => "" end)%string).
     { pose proof (mapo_length _ _ _ Bs) as Hl. destruct gs as [|? [|? ?]], es as [|? [|? ?]]; try discriminate Hl; reflexivity. }
     rewrite Hone.
     assert (Himp : isub = direct && negb (is_nil es)).
-    { destruct direct, isub, (is_nil es); try reflexivity; try discriminate; specialize (Hd eq_refl); discriminate. }
+    { subst isub. destruct direct, (is_nil es); try reflexivity; discriminate. }
     rewrite <- Himp. reflexivity.
   - (* PList *) intros es IH. rstart.
-    destruct (children_at es _ _ _ _ IH ltac:(assumption) Hg) as [gs [Bs Rs]].
+    destruct (children_at es _ _ _ IH ltac:(assumption) Hg) as [gs [Bs Rs]].
     bsimpl. rewrite Bs. eexists; split; [reflexivity|split; [exact I|]]. rewrite render_List, Rs. reflexivity.
   - (* PSet *) intros es IH. rstart.
-    destruct (children_at es _ _ _ _ IH ltac:(assumption) Hg) as [gs [Bs Rs]].
+    destruct (children_at es _ _ _ IH ltac:(assumption) Hg) as [gs [Bs Rs]].
     bsimpl. rewrite Bs. eexists; split; [reflexivity|split; [exact I|]]. rewrite render_Set, Rs. reflexivity.
   - (* PDict *) intros items IH. rstart.
-    destruct (dict_items_at items _ _ _ IH ltac:(assumption) Hg) as [its [Bi Ri]]. unfold build_item in Bi.
+    destruct (dict_items_at items _ _ IH ltac:(assumption) Hg) as [its [Bi Ri]]. unfold build_item in Bi.
     bsimpl. rewrite Bi. eexists; split; [reflexivity|split; [exact I|]].
-    rewrite render_Dict. fold dtxt. change (fun kv : option gexpr * gexpr => ((match fst kv with None => "None" | Some k => render k end) ++ ": " ++ render (snd kv))%string) with dtxt.
+    rewrite render_Dict. change (fun kv : option gexpr * gexpr => ((match fst kv with None => "**" | Some k => render k ++ ": " end) ++ render (snd kv))%string) with dtxt.
     rewrite Ri. reflexivity.
   - (* PDictItem *) intros k v Hk [Hv _]. split; [intros direct isub ijoin ifmt Hd Hwf; discriminate Hwf|].
     split; [destruct k; simpl in *; [destruct Hk; assumption|exact I]|assumption].
   - (* PIfExp *) intros b t o [IHb _] [IHt _] [IHo _]. rstart. kid b IHb gb Bb Rb. kid t IHt gtt Bt Rt. kid o IHo go Bo Ro.
     bsimpl. rewrite Bb, Bt, Bo. eexists; split; [reflexivity|split; [exact I|]]. rewrite render_IfExp, Rb, Rt, Ro. reflexivity.
   - (* PLambda *) intros po pk vp ko vk body IHpo IHpk IHko [IHb _]. rstart. kid body IHb gb Bb Rb.
-    destruct (params_at PO po _ _ _ eq_refl IHpo ltac:(assumption) ltac:(eassumption)) as [a [Ba Ta]].
-    destruct (params_at PK pk _ _ _ eq_refl IHpk ltac:(assumption) ltac:(eassumption)) as [b [Bb' Tb]].
-    destruct (params_at KO ko _ _ _ eq_refl IHko ltac:(assumption) ltac:(eassumption)) as [d [Bd Td]].
+    destruct (params_at PO po _ _ eq_refl IHpo ltac:(assumption) ltac:(eassumption)) as [a [Ba Ta]].
+    destruct (params_at PK pk _ _ eq_refl IHpk ltac:(assumption) ltac:(eassumption)) as [b [Bb' Tb]].
+    destruct (params_at KO ko _ _ eq_refl IHko ltac:(assumption) ltac:(eassumption)) as [d [Bd Td]].
     pose proof (par_of_allk _ _ _ Ba) as Ka. pose proof (par_of_allk _ _ _ Bb') as Kb. pose proof (par_of_allk _ _ _ Bd) as Kd.
     unfold par_of, gpar in Ba, Bb', Bd. bsimpl. rewrite Ba, Bb', Bd, Bb.
     eexists; split; [reflexivity|split; [exact I|]].
@@ -528,33 +532,34 @@ Proof.
   - (* PParam *) intros n d Hd. split; [intros direct isub ijoin ifmt Hd' Hwf; discriminate Hwf|].
     destruct d; simpl in *; [destruct Hd; assumption|exact I].
   - (* PNamedExpr *) intros t v [IHt _] [IHv _]. rstart. kid v IHv gv Bv Rv.
-    destruct (IHt false isub ijoin ifmt ltac:(discriminate) ltac:(assumption) ltac:(assumption)) as [gt' [Bt [_ Rt]]].
+    destruct (IHt false false ijoin ifmt eq_refl ltac:(assumption) ltac:(assumption)) as [gt' [Bt [_ Rt]]].
     bsimpl. rewrite Bt, Bv. eexists; split; [reflexivity|split; [exact I|]]. rewrite render_NamedExpr, Rt, Rv. reflexivity.
   - (* PStarred *) intros v [IH _]. rstart. kid v IH g B R.
     bsimpl. rewrite B. eexists; split; [reflexivity|split; [exact I|]]. rewrite render_VarPositional, R. reflexivity.
   - (* PListComp *) intros e gens [IHe _] IH. rstart. kid e IHe ge1 Be Re.
-    destruct (children_plain gens _ _ _ IH ltac:(assumption) ltac:(eassumption)) as [gs [Bs Rs]].
+    destruct (children_plain gens _ _ IH ltac:(assumption) ltac:(eassumption)) as [gs [Bs Rs]].
     bsimpl. rewrite Be, Bs. eexists; split; [reflexivity|split; [exact I|]]. rewrite render_ListComp, Re, Rs. reflexivity.
   - (* PSetComp *) intros e gens [IHe _] IH. rstart. kid e IHe ge1 Be Re.
-    destruct (children_plain gens _ _ _ IH ltac:(assumption) ltac:(eassumption)) as [gs [Bs Rs]].
+    destruct (children_plain gens _ _ IH ltac:(assumption) ltac:(eassumption)) as [gs [Bs Rs]].
     bsimpl. rewrite Be, Bs. eexists; split; [reflexivity|split; [exact I|]]. rewrite render_SetComp, Re, Rs. reflexivity.
   - (* PGeneratorExp *) intros e gens [IHe _] IH. rstart. kid e IHe ge1 Be Re.
-    destruct (children_plain gens _ _ _ IH ltac:(assumption) ltac:(eassumption)) as [gs [Bs Rs]].
+    destruct (children_plain gens _ _ IH ltac:(assumption) ltac:(eassumption)) as [gs [Bs Rs]].
     bsimpl. rewrite Be, Bs. eexists; split; [reflexivity|split; [exact I|]]. rewrite render_GeneratorExp, Re, Rs. reflexivity.
-  - (* PDictComp: always in gap family 5 *) intros k v gens _ _ _. split; [|exact I].
-    intros direct isub ijoin ifmt Hd Hwf Hg. cbn [gaps] in Hg. discriminate Hg.
+  - (* PDictComp *) intros k v gens [IHk _] [IHv _] IH. rstart. kid k IHk gk Bk Rk. kid v IHv gv Bv Rv.
+    destruct (children_plain gens _ _ IH ltac:(assumption) ltac:(eassumption)) as [gs [Bs Rs]].
+    bsimpl. rewrite Bk, Bv, Bs. eexists; split; [reflexivity|split; [exact I|]]. rewrite render_DictComp, Rk, Rv, Rs. reflexivity.
   - (* PComprehension *) intros t it ifs a [IHt _] [IHi _] IH. rstart. kid t IHt gt' Bt Rt. kid it IHi gi Bi Ri.
-    destruct (children_at ifs _ _ _ _ IH ltac:(assumption) ltac:(eassumption)) as [gs [Bs Rs]].
+    destruct (children_at ifs _ _ _ IH ltac:(assumption) ltac:(eassumption)) as [gs [Bs Rs]].
     bsimpl. rewrite Bt, Bi, Bs. eexists; split; [reflexivity|split; [exact I|]].
     rewrite render_Comprehension, Rt, Ri. cbn [rprint].
     rewrite <- (is_nil_map render gs). rewrite (sjoin_prefix " if " (map render gs)). rewrite Rs, map_map. reflexivity.
   - (* PJoinedStr *) intros vs IH. rstart.
-    assert (Hx : exists gs, mapo (build (mkCtx NoParse isub true ifmt)) vs = Some gs /\ map render gs = map (fun c => match c with PStr _ raw _ => esc_braces raw | _ => rprint false c end) vs).
+    assert (Hx : exists gs, mapo (build (mkCtx NoParse false true ifmt)) vs = Some gs /\ map render gs = map (fun c => match c with PStr _ raw _ => esc_braces raw | _ => rprint false c end) vs).
     { refine (mapo_render _ render _ _ vs _ Hg). apply forallb_Forall in Hwf.
       eapply Forall_impl2; [|exact IH|exact Hwf]. intros c [Hc _] Hwc Hgc. simpl in Hwc.
-      destruct c; try (destruct (Hc false isub true ifmt ltac:(discriminate) Hwc Hgc) as [g [Bg [_ Rg]]]; exists g; split; assumption).
+      destruct c; try (destruct (Hc false false true ifmt eq_refl Hwc Hgc) as [g [Bg [_ Rg]]]; exists g; split; assumption).
       - (* literal text *) destruct ifmt; [discriminate Hgc|]. cbn [orb] in Hgc.
-        destruct (has_brace raw) eqn:Hb; [discriminate Hgc|]. cbn [build mapped node_builder injoin infmt andb negb].
+        destruct (has_brace raw) eqn:Hb; [discriminate Hgc|]. cbn [build enter keeps_insub mapped node_builder injoin infmt andb negb].
         eexists; split; [reflexivity|]. rewrite render_Str, esc_braces_id by assumption. reflexivity.
       - (* PParsed *) discriminate Hgc. }
     destruct Hx as [gs [Bs Rs]]. bsimpl. rewrite Bs. eexists; split; [reflexivity|split; [exact I|]].
@@ -564,7 +569,7 @@ Proof.
     rewrite render_Formatted, R. cbn [rprint]. cbv zeta.
     match goal with H : starts_brace (ref_at P_OR v) = false |- _ => unfold ref_at in H; rewrite H end. reflexivity.
   - (* PYield *) intros v IH. rstart.
-    destruct (child_opt v _ _ _ _ IH ltac:(assumption) Hg) as [gv [Bv Rv]].
+    destruct (child_opt v _ _ _ IH ltac:(assumption) Hg) as [gv [Bv Rv]].
     bsimpl. rewrite Bv. eexists; split; [reflexivity|split; [exact I|]].
     rewrite render_Yield. cbn [rprint]. destruct v, gv; try contradiction; [rewrite Rv|]; reflexivity.
   - (* PYieldFrom *) intros v [IH _]. rstart. kid v IH g B R.
@@ -581,7 +586,7 @@ Proof.
   intros Hw Hk. unfold known_gap, gaps_top in Hk. apply negb_false_iff in Hk.
   destruct (need top e ++ gaps false false false false e) eqn:E; [|discriminate Hk].
   apply app_eq_nil in E. destruct E as [Hn Hg].
-  destruct (child_at e top false false false (proj1 (render_all e)) Hw Hn Hg) as [g [B [_ R]]].
+  destruct (child_at e top false false (proj1 (render_all e)) Hw Hn Hg) as [g [B [_ R]]].
   exists g. split; [exact B|exact R].
 Qed.
 
